@@ -1525,8 +1525,11 @@ pub fn main() -> i32 {
     // The main thread is the watchdog of everything that follows, but it is also the caller of this
     // first spawn: if spawn itself never returns nobody is left to notice.  SIGALRM (default action:
     // terminate, also out of a killable wait inside clone) after 8 s, disarmed once the executor runs.
+    // (`alarm=<seconds>` anywhere in the script overrides the 8 s: re-confirmation runs under load)
+    let text0 = core::str::from_utf8(&sbuf[..n as usize]).unwrap_or("");
+    let alarm_s = text0.split(|c| c == ' ' || c == '\n').find_map(|t| t.strip_prefix("alarm=")).and_then(|v| v.parse::<u64>().ok()).unwrap_or(8);
     unsafe {
-        sc::syscall!(ALARM, 8);
+        sc::syscall!(ALARM, alarm_s);
     }
     sched::LOG_POINTS.store(false, Ordering::SeqCst);
     // executor thread, created by the code under test itself but outside every scenario
